@@ -36,7 +36,7 @@ type c17run struct {
 	e2e    bool              // ten inputs with 2048 distinct words each: rebuild the repository with the output
 	canon  bool              // the canonical lists
 	shape  string
-	fault  map[string]int    // file base name -> the first download of it is cut after this many body bytes
+	fault  map[string]int // file base name -> the first download of it is cut after this many body bytes
 }
 
 // nonEmptyLines is the specification: the list must hold exactly these.
